@@ -154,7 +154,8 @@ class Sizes:
         defs = [d for d in tr.defs.of(l) if d[0] in cfg.reach]
         if not defs or tr.defs.pwrites.get(l) or len(defs) > 12:
             return None
-        base, incs = [], []
+        base, incs, base_bbs = [], [], []
+        n_self = 0
         for (dbi, si, kind, payload) in defs:
             if kind != 'assign':
                 return None
@@ -163,12 +164,20 @@ class Sizes:
             if iv is None:
                 return None
             if iv is SELF:
+                n_self += 1
                 continue                   # x = x
             if isinstance(iv, tuple) and iv and iv[0] == 'self+':
                 incs.append((dbi, iv[1], iv[2]))
             else:
                 base.append(iv)
+                base_bbs.append(dbi)
         if not base:
+            # a temporary on the way back to an accumulator further out (`r = if c { x } else { x + 1 }; x = r`): every
+            # definition is the outer accumulator, possibly plus a non-negative term
+            if stack and (incs or n_self) and all(t[1][0] >= 0 for t in incs):
+                if not incs:
+                    return SELF
+                return ('self+', (0 if n_self else min(t[1][0] for t in incs), max(t[1][1] for t in incs)), None)
             return None
         lo, hi = min(b[0] for b in base), max(b[1] for b in base)
         if not incs:
@@ -178,7 +187,7 @@ class Sizes:
         for dbi, term_iv, term_op in incs:
             if term_iv[0] < 0:
                 return None
-            s = self._sum_bound(body, dbi, term_iv, term_op)
+            s = self._sum_bound(body, dbi, term_iv, term_op, base_bbs)
             if s is None:
                 return None
             total += s
@@ -198,35 +207,57 @@ class Sizes:
             return self.interval(body, rv['a'], stack, depth)
         return None
 
-    def _sum_bound(self, body, def_bb, term_iv, term_op):
-        """Upper bound of the sum of `term` over all iterations of the for loop around def_bb."""
+    def _sum_bound(self, body, def_bb, term_iv, term_op, base_bbs=()):
+        """Upper bound of the sum of `term` over all executions of the step in block def_bb between two (re)initialisations
+        of the accumulator: the loops around the step that do not also contain every initialisation multiply."""
         from .loops import for_loops
         tr, cfg = self.tracer(body)
         loops = [d for d in for_loops(body, cfg, tr) if def_bb in d['loop']['body']]
-        if len(loops) != 1:
-            return None         # nested accumulation: not bounded here
-        d = loops[0]
-        once = ('iter', 'into_iter', 'iter_mut', 'enumerate', 'deref', 'by_ref', 'as_slice', 'rev', 'skip', 'take', 'filter', 'step_by',
-                'skip_while', 'take_while', 'peekable', 'fuse', 'as_ref', 'borrow')
-        if not d['chain_terms'] or any(nm not in once for nm, _ct, _cbb in d['chain_terms']):
-            return None         # every item of the collection must be visited at most once
-        if term_op is not None:
-            et = self._owned_len(body, term_op, d)
+        if not loops:
+            return None
+        loops.sort(key=lambda d: len(d['loop']['body']))          # innermost first
+        counted = []
+        for d in loops:
+            if base_bbs and all(bb in d['loop']['body'] for bb in base_bbs):
+                break           # re-initialised on every iteration of this loop: the sum restarts
+            counted.append(d)
+        if not counted:
+            return term_iv[1]
+        if len(counted) == 1 and term_op is not None and self._visits_once(counted[0]):
+            et = self._owned_len(body, term_op, counted[0])
             if et is not None:
                 return MAXB // self.size_of(et)
-        # number of iterations: the loop ranges over the items of an in-memory collection
-        n_iter = None
+        total = term_iv[1]
+        for d in counted:
+            n = self._iterations(d)
+            if n is None:
+                return None
+            total *= n
+        return total
+
+    _ONCE = ('iter', 'into_iter', 'iter_mut', 'enumerate', 'deref', 'by_ref', 'as_slice', 'rev', 'skip', 'take', 'filter', 'step_by',
+             'skip_while', 'take_while', 'peekable', 'fuse', 'as_ref', 'borrow')
+
+    def _visits_once(self, d):
+        return bool(d['chain_terms']) and all(nm in self._ONCE for nm, _ct, _cbb in d['chain_terms'])
+
+    def _iterations(self, d):
+        """Upper bound of the number of iterations of for-loop d."""
+        if not [c for c in d['chain_terms'] if c[0] not in ('into_iter', 'by_ref')]:
+            # a loop over an integer range lo..hi: at most max(T) iterations (an exclusive range of T cannot have more)
+            so = d.get('src') or {}
+            if so.get('o') == 'rvalue' and so['rv'].get('r') == 'aggr' and str(so['rv'].get('adt', '')).endswith('ops::Range') and \
+                    so['rv'].get('ops'):
+                rng = RANGES.get(so['rv']['ops'][0].get('ty'))
+                return rng[1] if rng is not None else None
+            return None
+        if not self._visits_once(d):
+            return None
         for nm, ct, cbb in d['chain_terms']:
             if nm in ('iter', 'into_iter', 'iter_mut') and ct['args']:
                 et = self.elem_ty(ct['args'][0].get('ty'))
-                if et is not None:
-                    n_iter = MAXB // self.size_of(et)
-                break
-            if nm not in once:
-                break
-        if n_iter is None:
-            return None
-        return n_iter * term_iv[1]
+                return MAXB // self.size_of(et) if et is not None else None
+        return None
 
     def _owned_len(self, body, term_op, d, depth=0):
         """Element type T if term = len of a Vec<T> owned by the item of loop d (reached through struct fields only)."""
